@@ -1,12 +1,14 @@
 (* The syntactic tie: every definition of Generated/SdfExpr.v (produced by harness/sdfgen from
-   the Go AST of vec/v2/v2.go, vec/v3/v3.go, sdf/utils.go, sdf/sdf2.go, sdf/sdf3.go on every
-   run) is equal, for all arguments and over an arbitrary `O : Ops`, to the hand-written model
-   function of Geo/Vec.v, Sdf/Union2.v, Sdf/Shape.v.  All proofs are by conversion
-   (`reflexivity` after unfolding the constructor guards; `destruct` of one boolean where Go
-   writes `if x != 0 {..}` and the model `if x =? 0 then .. else ..`), so they hold exactly as
-   long as the Go function and the model function are the same term up to let-structure.
-   An edit of the Go source that changes what a function computes makes the lemma of that
-   function fail.
+   the Go AST of vec/v2/v2.go, vec/v3/v3.go, vec/conv/conv.go, sdf/utils.go, sdf/sdf2.go,
+   sdf/sdf3.go, sdf/box2.go, sdf/box3.go, sdf/matrix.go (MulBox) on every run) is equal, for all
+   arguments and over an arbitrary `O : Ops`, to the hand-written model function of Geo/Vec.v,
+   Geo/Box.v, Geo/Mat.v, Sdf/Union2.v, Sdf/Shape.v.  All proofs are by conversion (`same_as` =
+   reflexivity after unfolding the constructor guards; `destruct` of one boolean where Go writes
+   `if x != 0 {..}` and the model `if x =? 0 then .. else ..`), so they hold exactly as long as
+   the Go function and the model function are the same term up to let-structure.  An edit of the
+   Go source (or of the model) that changes what a function computes makes the lemma of that
+   function fail, with the message `Tactic failure: TRANSL_<name>: ...` naming the theorem of
+   Props/TRANSL.v that cites it.
 
    Evaluate methods: the receiver fields are parameters of the generated definition; the lemma
    substitutes what the model's constructor `k_xxx` pre-computes and is stated about the
@@ -38,16 +40,23 @@ Ltac open_k H :=
          end;
   inversion H; subst; clear H.
 
+(* `same_as TRANSL_x`: reflexivity, with a failure message that names the theorem of Props/TRANSL.v *)
+Ltac same_tac s :=
+  first [ reflexivity
+        | fail 1 s ": the definition generated from the current Go source is not convertible to the hand-written model" ].
+Tactic Notation "same_as" ident(s) := same_tac s.
+
 (* constructor equality: split on the argument checks (the same boolean terms on both sides),
    then both sides are the same object up to conversion *)
-Ltac ctor_eq :=
+Ltac ctor_tac s :=
   cbv zeta; cbn [orb andb];
   repeat (try reflexivity;
           match goal with
           | |- context [if ?c then _ else _] =>
               lazymatch c with false => fail | true => fail | negb ?d => destruct d | _ => destruct c end
           end);
-  reflexivity.
+  same_tac s.
+Tactic Notation "ctor_eq" ident(s) := ctor_tac s.
 
 Section GenEq.
   Context {O : Ops}.
@@ -56,151 +65,151 @@ Section GenEq.
   Notation V3 := (V3 O).
 
   (* ------------------------------------------------------------ vec/v2/v2.go *)
-  Lemma v2_Add_eq : forall a b : V2, v2_Vec_Add a b = v2add a b. Proof. reflexivity. Qed.
-  Lemma v2_Sub_eq : forall a b : V2, v2_Vec_Sub a b = v2sub a b. Proof. reflexivity. Qed.
-  Lemma v2_Mul_eq : forall a b : V2, v2_Vec_Mul a b = v2mul a b. Proof. reflexivity. Qed.
-  Lemma v2_Div_eq : forall a b : V2, v2_Vec_Div a b = v2div a b. Proof. reflexivity. Qed.
-  Lemma v2_Neg_eq : forall a : V2, v2_Vec_Neg a = v2neg a. Proof. reflexivity. Qed.
-  Lemma v2_Abs_eq : forall a : V2, v2_Vec_Abs a = v2abs a. Proof. reflexivity. Qed.
-  Lemma v2_MulScalar_eq : forall (a : V2) (k : T), v2_Vec_MulScalar a k = v2muls a k. Proof. reflexivity. Qed.
-  Lemma v2_AddScalar_eq : forall (a : V2) (k : T), v2_Vec_AddScalar a k = v2adds a k. Proof. reflexivity. Qed.
-  Lemma v2_SubScalar_eq : forall (a : V2) (k : T), v2_Vec_SubScalar a k = v2subs a k. Proof. reflexivity. Qed.
-  Lemma v2_Min_eq : forall a b : V2, v2_Vec_Min a b = v2min a b. Proof. reflexivity. Qed.
-  Lemma v2_Max_eq : forall a b : V2, v2_Vec_Max a b = v2max a b. Proof. reflexivity. Qed.
-  Lemma v2_Dot_eq : forall a b : V2, v2_Vec_Dot a b = v2dot a b. Proof. reflexivity. Qed.
-  Lemma v2_Cross_eq : forall a b : V2, v2_Vec_Cross a b = v2cross a b. Proof. reflexivity. Qed.
-  Lemma v2_Length2_eq : forall a : V2, v2_Vec_Length2 a = v2len2 a. Proof. reflexivity. Qed.
-  Lemma v2_Length_eq : forall a : V2, v2_Vec_Length a = v2len a. Proof. reflexivity. Qed.
-  Lemma v2_Normalize_eq : forall a : V2, v2_Vec_Normalize a = v2normalize a. Proof. reflexivity. Qed.
-  Lemma v2_MinComponent_eq : forall a : V2, v2_Vec_MinComponent a = v2mincomp a. Proof. reflexivity. Qed.
-  Lemma v2_MaxComponent_eq : forall a : V2, v2_Vec_MaxComponent a = v2maxcomp a. Proof. reflexivity. Qed.
-  Lemma v2_clamp_eq : forall x a b : T, v2_clamp x a b = clamp x a b. Proof. reflexivity. Qed.
-  Lemma v2_Clamp_eq : forall a b c : V2, v2_Vec_Clamp a b c = v2clamp a b c. Proof. reflexivity. Qed.
-  Lemma v2_DivScalar_eq : forall (a : V2) (k : T), v2_Vec_DivScalar a k = v2divs a k. Proof. reflexivity. Qed.
+  Lemma v2_Add_eq : forall a b : V2, v2_Vec_Add a b = v2add a b. Proof. same_as TRANSL_v2_Add. Qed.
+  Lemma v2_Sub_eq : forall a b : V2, v2_Vec_Sub a b = v2sub a b. Proof. same_as TRANSL_v2_Sub. Qed.
+  Lemma v2_Mul_eq : forall a b : V2, v2_Vec_Mul a b = v2mul a b. Proof. same_as TRANSL_v2_Mul. Qed.
+  Lemma v2_Div_eq : forall a b : V2, v2_Vec_Div a b = v2div a b. Proof. same_as TRANSL_v2_Div. Qed.
+  Lemma v2_Neg_eq : forall a : V2, v2_Vec_Neg a = v2neg a. Proof. same_as TRANSL_v2_Neg. Qed.
+  Lemma v2_Abs_eq : forall a : V2, v2_Vec_Abs a = v2abs a. Proof. same_as TRANSL_v2_Abs. Qed.
+  Lemma v2_MulScalar_eq : forall (a : V2) (k : T), v2_Vec_MulScalar a k = v2muls a k. Proof. same_as TRANSL_v2_MulScalar. Qed.
+  Lemma v2_AddScalar_eq : forall (a : V2) (k : T), v2_Vec_AddScalar a k = v2adds a k. Proof. same_as TRANSL_v2_AddScalar. Qed.
+  Lemma v2_SubScalar_eq : forall (a : V2) (k : T), v2_Vec_SubScalar a k = v2subs a k. Proof. same_as TRANSL_v2_SubScalar. Qed.
+  Lemma v2_Min_eq : forall a b : V2, v2_Vec_Min a b = v2min a b. Proof. same_as TRANSL_v2_Min. Qed.
+  Lemma v2_Max_eq : forall a b : V2, v2_Vec_Max a b = v2max a b. Proof. same_as TRANSL_v2_Max. Qed.
+  Lemma v2_Dot_eq : forall a b : V2, v2_Vec_Dot a b = v2dot a b. Proof. same_as TRANSL_v2_Dot. Qed.
+  Lemma v2_Cross_eq : forall a b : V2, v2_Vec_Cross a b = v2cross a b. Proof. same_as TRANSL_v2_Cross. Qed.
+  Lemma v2_Length2_eq : forall a : V2, v2_Vec_Length2 a = v2len2 a. Proof. same_as TRANSL_v2_Length2. Qed.
+  Lemma v2_Length_eq : forall a : V2, v2_Vec_Length a = v2len a. Proof. same_as TRANSL_v2_Length. Qed.
+  Lemma v2_Normalize_eq : forall a : V2, v2_Vec_Normalize a = v2normalize a. Proof. same_as TRANSL_v2_Normalize. Qed.
+  Lemma v2_MinComponent_eq : forall a : V2, v2_Vec_MinComponent a = v2mincomp a. Proof. same_as TRANSL_v2_MinComponent. Qed.
+  Lemma v2_MaxComponent_eq : forall a : V2, v2_Vec_MaxComponent a = v2maxcomp a. Proof. same_as TRANSL_v2_MaxComponent. Qed.
+  Lemma v2_clamp_eq : forall x a b : T, v2_clamp x a b = clamp x a b. Proof. same_as TRANSL_v2_clamp. Qed.
+  Lemma v2_Clamp_eq : forall a b c : V2, v2_Vec_Clamp a b c = v2clamp a b c. Proof. same_as TRANSL_v2_Clamp. Qed.
+  Lemma v2_DivScalar_eq : forall (a : V2) (k : T), v2_Vec_DivScalar a k = v2divs a k. Proof. same_as TRANSL_v2_DivScalar. Qed.
 
   (* ------------------------------------------------------------ vec/v3/v3.go *)
-  Lemma v3_Add_eq : forall a b : V3, v3_Vec_Add a b = v3add a b. Proof. reflexivity. Qed.
-  Lemma v3_Sub_eq : forall a b : V3, v3_Vec_Sub a b = v3sub a b. Proof. reflexivity. Qed.
-  Lemma v3_Mul_eq : forall a b : V3, v3_Vec_Mul a b = v3mul a b. Proof. reflexivity. Qed.
-  Lemma v3_Div_eq : forall a b : V3, v3_Vec_Div a b = v3div a b. Proof. reflexivity. Qed.
-  Lemma v3_Neg_eq : forall a : V3, v3_Vec_Neg a = v3neg a. Proof. reflexivity. Qed.
-  Lemma v3_Abs_eq : forall a : V3, v3_Vec_Abs a = v3abs a. Proof. reflexivity. Qed.
-  Lemma v3_MulScalar_eq : forall (a : V3) (k : T), v3_Vec_MulScalar a k = v3muls a k. Proof. reflexivity. Qed.
-  Lemma v3_AddScalar_eq : forall (a : V3) (k : T), v3_Vec_AddScalar a k = v3adds a k. Proof. reflexivity. Qed.
-  Lemma v3_SubScalar_eq : forall (a : V3) (k : T), v3_Vec_SubScalar a k = v3subs a k. Proof. reflexivity. Qed.
-  Lemma v3_Min_eq : forall a b : V3, v3_Vec_Min a b = v3min a b. Proof. reflexivity. Qed.
-  Lemma v3_Max_eq : forall a b : V3, v3_Vec_Max a b = v3max a b. Proof. reflexivity. Qed.
-  Lemma v3_Dot_eq : forall a b : V3, v3_Vec_Dot a b = v3dot a b. Proof. reflexivity. Qed.
-  Lemma v3_Cross_eq : forall a b : V3, v3_Vec_Cross a b = v3cross a b. Proof. reflexivity. Qed.
-  Lemma v3_Length2_eq : forall a : V3, v3_Vec_Length2 a = v3len2 a. Proof. reflexivity. Qed.
-  Lemma v3_Length_eq : forall a : V3, v3_Vec_Length a = v3len a. Proof. reflexivity. Qed.
-  Lemma v3_Normalize_eq : forall a : V3, v3_Vec_Normalize a = v3normalize a. Proof. reflexivity. Qed.
-  Lemma v3_MinComponent_eq : forall a : V3, v3_Vec_MinComponent a = v3mincomp a. Proof. reflexivity. Qed.
-  Lemma v3_MaxComponent_eq : forall a : V3, v3_Vec_MaxComponent a = v3maxcomp a. Proof. reflexivity. Qed.
-  Lemma v3_clamp_eq : forall x a b : T, v3_clamp x a b = clamp x a b. Proof. reflexivity. Qed.
-  Lemma v3_Clamp_eq : forall a b c : V3, v3_Vec_Clamp a b c = v3clamp a b c. Proof. reflexivity. Qed.
-  Lemma v3_DivScalar_eq : forall (a : V3) (k : T), v3_Vec_DivScalar a k = v3divs a k. Proof. reflexivity. Qed.
-  Lemma v3_LTEZero_eq : forall a : V3, v3_Vec_LTEZero a = v3_lte_zero a. Proof. reflexivity. Qed.
+  Lemma v3_Add_eq : forall a b : V3, v3_Vec_Add a b = v3add a b. Proof. same_as TRANSL_v3_Add. Qed.
+  Lemma v3_Sub_eq : forall a b : V3, v3_Vec_Sub a b = v3sub a b. Proof. same_as TRANSL_v3_Sub. Qed.
+  Lemma v3_Mul_eq : forall a b : V3, v3_Vec_Mul a b = v3mul a b. Proof. same_as TRANSL_v3_Mul. Qed.
+  Lemma v3_Div_eq : forall a b : V3, v3_Vec_Div a b = v3div a b. Proof. same_as TRANSL_v3_Div. Qed.
+  Lemma v3_Neg_eq : forall a : V3, v3_Vec_Neg a = v3neg a. Proof. same_as TRANSL_v3_Neg. Qed.
+  Lemma v3_Abs_eq : forall a : V3, v3_Vec_Abs a = v3abs a. Proof. same_as TRANSL_v3_Abs. Qed.
+  Lemma v3_MulScalar_eq : forall (a : V3) (k : T), v3_Vec_MulScalar a k = v3muls a k. Proof. same_as TRANSL_v3_MulScalar. Qed.
+  Lemma v3_AddScalar_eq : forall (a : V3) (k : T), v3_Vec_AddScalar a k = v3adds a k. Proof. same_as TRANSL_v3_AddScalar. Qed.
+  Lemma v3_SubScalar_eq : forall (a : V3) (k : T), v3_Vec_SubScalar a k = v3subs a k. Proof. same_as TRANSL_v3_SubScalar. Qed.
+  Lemma v3_Min_eq : forall a b : V3, v3_Vec_Min a b = v3min a b. Proof. same_as TRANSL_v3_Min. Qed.
+  Lemma v3_Max_eq : forall a b : V3, v3_Vec_Max a b = v3max a b. Proof. same_as TRANSL_v3_Max. Qed.
+  Lemma v3_Dot_eq : forall a b : V3, v3_Vec_Dot a b = v3dot a b. Proof. same_as TRANSL_v3_Dot. Qed.
+  Lemma v3_Cross_eq : forall a b : V3, v3_Vec_Cross a b = v3cross a b. Proof. same_as TRANSL_v3_Cross. Qed.
+  Lemma v3_Length2_eq : forall a : V3, v3_Vec_Length2 a = v3len2 a. Proof. same_as TRANSL_v3_Length2. Qed.
+  Lemma v3_Length_eq : forall a : V3, v3_Vec_Length a = v3len a. Proof. same_as TRANSL_v3_Length. Qed.
+  Lemma v3_Normalize_eq : forall a : V3, v3_Vec_Normalize a = v3normalize a. Proof. same_as TRANSL_v3_Normalize. Qed.
+  Lemma v3_MinComponent_eq : forall a : V3, v3_Vec_MinComponent a = v3mincomp a. Proof. same_as TRANSL_v3_MinComponent. Qed.
+  Lemma v3_MaxComponent_eq : forall a : V3, v3_Vec_MaxComponent a = v3maxcomp a. Proof. same_as TRANSL_v3_MaxComponent. Qed.
+  Lemma v3_clamp_eq : forall x a b : T, v3_clamp x a b = clamp x a b. Proof. same_as TRANSL_v3_clamp. Qed.
+  Lemma v3_Clamp_eq : forall a b c : V3, v3_Vec_Clamp a b c = v3clamp a b c. Proof. same_as TRANSL_v3_Clamp. Qed.
+  Lemma v3_DivScalar_eq : forall (a : V3) (k : T), v3_Vec_DivScalar a k = v3divs a k. Proof. same_as TRANSL_v3_DivScalar. Qed.
+  Lemma v3_LTEZero_eq : forall a : V3, v3_Vec_LTEZero a = v3_lte_zero a. Proof. same_as TRANSL_v3_LTEZero. Qed.
 
   (* ------------------------------------------------------------ sdf/box2.go, sdf/box3.go *)
-  Lemma NewBox2_eq : forall center size : V2, sdf_NewBox2 center size = newbox2 center size. Proof. reflexivity. Qed.
-  Lemma Box2_Extend_eq : forall a b : Box2 O, sdf_Box2_Extend a b = box2_extend a b. Proof. reflexivity. Qed.
-  Lemma Box2_Include_eq : forall (a : Box2 O) (v : V2), sdf_Box2_Include a v = box2_include a v. Proof. reflexivity. Qed.
-  Lemma Box2_Translate_eq : forall (a : Box2 O) (v : V2), sdf_Box2_Translate a v = box2_translate a v. Proof. reflexivity. Qed.
-  Lemma Box2_Size_eq : forall a : Box2 O, sdf_Box2_Size a = box2_size a. Proof. reflexivity. Qed.
-  Lemma Box2_Center_eq : forall a : Box2 O, sdf_Box2_Center a = box2_center a. Proof. reflexivity. Qed.
+  Lemma NewBox2_eq : forall center size : V2, sdf_NewBox2 center size = newbox2 center size. Proof. same_as TRANSL_NewBox2. Qed.
+  Lemma Box2_Extend_eq : forall a b : Box2 O, sdf_Box2_Extend a b = box2_extend a b. Proof. same_as TRANSL_Box2_Extend. Qed.
+  Lemma Box2_Include_eq : forall (a : Box2 O) (v : V2), sdf_Box2_Include a v = box2_include a v. Proof. same_as TRANSL_Box2_Include. Qed.
+  Lemma Box2_Translate_eq : forall (a : Box2 O) (v : V2), sdf_Box2_Translate a v = box2_translate a v. Proof. same_as TRANSL_Box2_Translate. Qed.
+  Lemma Box2_Size_eq : forall a : Box2 O, sdf_Box2_Size a = box2_size a. Proof. same_as TRANSL_Box2_Size. Qed.
+  Lemma Box2_Center_eq : forall a : Box2 O, sdf_Box2_Center a = box2_center a. Proof. same_as TRANSL_Box2_Center. Qed.
   Lemma Box2_ScaleAboutCenter_eq : forall (a : Box2 O) (k : T), sdf_Box2_ScaleAboutCenter a k = box2_scale_about_center a k.
-  Proof. reflexivity. Qed.
-  Lemma Box2_Enlarge_eq : forall (a : Box2 O) (v : V2), sdf_Box2_Enlarge a v = box2_enlarge a v. Proof. reflexivity. Qed.
-  Lemma Box2_Contains_eq : forall (a : Box2 O) (v : V2), sdf_Box2_Contains a v = box2_contains a v. Proof. reflexivity. Qed.
-  Lemma Box2_Vertices_eq : forall a : Box2 O, sdf_Box2_Vertices a = box2_vertices a. Proof. reflexivity. Qed.
-  Lemma NewBox3_eq : forall center size : V3, sdf_NewBox3 center size = newbox3 center size. Proof. reflexivity. Qed.
-  Lemma Box3_Extend_eq : forall a b : Box3 O, sdf_Box3_Extend a b = box3_extend a b. Proof. reflexivity. Qed.
-  Lemma Box3_Include_eq : forall (a : Box3 O) (v : V3), sdf_Box3_Include a v = box3_include a v. Proof. reflexivity. Qed.
-  Lemma Box3_Translate_eq : forall (a : Box3 O) (v : V3), sdf_Box3_Translate a v = box3_translate a v. Proof. reflexivity. Qed.
-  Lemma Box3_Size_eq : forall a : Box3 O, sdf_Box3_Size a = box3_size a. Proof. reflexivity. Qed.
-  Lemma Box3_Center_eq : forall a : Box3 O, sdf_Box3_Center a = box3_center a. Proof. reflexivity. Qed.
+  Proof. same_as TRANSL_Box2_ScaleAboutCenter. Qed.
+  Lemma Box2_Enlarge_eq : forall (a : Box2 O) (v : V2), sdf_Box2_Enlarge a v = box2_enlarge a v. Proof. same_as TRANSL_Box2_Enlarge. Qed.
+  Lemma Box2_Contains_eq : forall (a : Box2 O) (v : V2), sdf_Box2_Contains a v = box2_contains a v. Proof. same_as TRANSL_Box2_Contains. Qed.
+  Lemma Box2_Vertices_eq : forall a : Box2 O, sdf_Box2_Vertices a = box2_vertices a. Proof. same_as TRANSL_Box2_Vertices. Qed.
+  Lemma NewBox3_eq : forall center size : V3, sdf_NewBox3 center size = newbox3 center size. Proof. same_as TRANSL_NewBox3. Qed.
+  Lemma Box3_Extend_eq : forall a b : Box3 O, sdf_Box3_Extend a b = box3_extend a b. Proof. same_as TRANSL_Box3_Extend. Qed.
+  Lemma Box3_Include_eq : forall (a : Box3 O) (v : V3), sdf_Box3_Include a v = box3_include a v. Proof. same_as TRANSL_Box3_Include. Qed.
+  Lemma Box3_Translate_eq : forall (a : Box3 O) (v : V3), sdf_Box3_Translate a v = box3_translate a v. Proof. same_as TRANSL_Box3_Translate. Qed.
+  Lemma Box3_Size_eq : forall a : Box3 O, sdf_Box3_Size a = box3_size a. Proof. same_as TRANSL_Box3_Size. Qed.
+  Lemma Box3_Center_eq : forall a : Box3 O, sdf_Box3_Center a = box3_center a. Proof. same_as TRANSL_Box3_Center. Qed.
   Lemma Box3_ScaleAboutCenter_eq : forall (a : Box3 O) (k : T), sdf_Box3_ScaleAboutCenter a k = box3_scale_about_center a k.
-  Proof. reflexivity. Qed.
-  Lemma Box3_Enlarge_eq : forall (a : Box3 O) (v : V3), sdf_Box3_Enlarge a v = box3_enlarge a v. Proof. reflexivity. Qed.
-  Lemma Box3_Contains_eq : forall (a : Box3 O) (v : V3), sdf_Box3_Contains a v = box3_contains a v. Proof. reflexivity. Qed.
-  Lemma Box3_Vertices_eq : forall a : Box3 O, sdf_Box3_Vertices a = box3_vertices a. Proof. reflexivity. Qed.
+  Proof. same_as TRANSL_Box3_ScaleAboutCenter. Qed.
+  Lemma Box3_Enlarge_eq : forall (a : Box3 O) (v : V3), sdf_Box3_Enlarge a v = box3_enlarge a v. Proof. same_as TRANSL_Box3_Enlarge. Qed.
+  Lemma Box3_Contains_eq : forall (a : Box3 O) (v : V3), sdf_Box3_Contains a v = box3_contains a v. Proof. same_as TRANSL_Box3_Contains. Qed.
+  Lemma Box3_Vertices_eq : forall a : Box3 O, sdf_Box3_Vertices a = box3_vertices a. Proof. same_as TRANSL_Box3_Vertices. Qed.
 
   (* ------------------------------------------------------------ sdf/matrix.go: MulBox *)
-  Lemma M33_MulBox_eq : forall (a : list T) (box : Box2 O), sdf_M33_MulBox a box = m33_mulbox a box. Proof. reflexivity. Qed.
-  Lemma M44_MulBox_eq : forall (a : list T) (box : Box3 O), sdf_M44_MulBox a box = m44_mulbox a box. Proof. reflexivity. Qed.
+  Lemma M33_MulBox_eq : forall (a : list T) (box : Box2 O), sdf_M33_MulBox a box = m33_mulbox a box. Proof. same_as TRANSL_M33_MulBox. Qed.
+  Lemma M44_MulBox_eq : forall (a : list T) (box : Box3 O), sdf_M44_MulBox a box = m44_mulbox a box. Proof. same_as TRANSL_M44_MulBox. Qed.
 
   (* ------------------------------------------------------------ sdf/utils.go *)
-  Lemma Clamp_eq : forall x a b : T, sdf_Clamp x a b = clamp x a b. Proof. reflexivity. Qed.
-  Lemma Mix_eq : forall x y a : T, sdf_Mix x y a = mix x y a. Proof. reflexivity. Qed.
-  Lemma Sign_eq : forall x : T, sdf_Sign x = sign x. Proof. reflexivity. Qed.
-  Lemma SawTooth_eq : forall x period : T, sdf_SawTooth x period = sawtooth x period. Proof. reflexivity. Qed.
-  Lemma poly_eq : forall a b k : T, sdf_poly a b k = poly a b k. Proof. reflexivity. Qed.
-  Lemma sqrtHalf_eq : sdf_sqrtHalf = @sqrt_half O. Proof. reflexivity. Qed.
-  Lemma Pi_eq : sdf_Pi = opi O. Proof. reflexivity. Qed.
-  Lemma RoundMin_eq : forall k a b : T, sdf_RoundMin k a b = min_apply (MinRound k) a b. Proof. reflexivity. Qed.
-  Lemma ChamferMin_eq : forall k a b : T, sdf_ChamferMin k a b = min_apply (MinChamfer k) a b. Proof. reflexivity. Qed.
-  Lemma PolyMin_eq : forall k a b : T, sdf_PolyMin k a b = min_apply (MinPoly k) a b. Proof. reflexivity. Qed.
-  Lemma PolyMax_eq : forall k a b : T, sdf_PolyMax k a b = max_apply (MaxPoly k) a b. Proof. reflexivity. Qed.
-  Lemma NormalExtrude_eq : forall p : V3, sdf_NormalExtrude p = ex_normal p. Proof. reflexivity. Qed.
+  Lemma Clamp_eq : forall x a b : T, sdf_Clamp x a b = clamp x a b. Proof. same_as TRANSL_Clamp. Qed.
+  Lemma Mix_eq : forall x y a : T, sdf_Mix x y a = mix x y a. Proof. same_as TRANSL_Mix. Qed.
+  Lemma Sign_eq : forall x : T, sdf_Sign x = sign x. Proof. same_as TRANSL_Sign. Qed.
+  Lemma SawTooth_eq : forall x period : T, sdf_SawTooth x period = sawtooth x period. Proof. same_as TRANSL_SawTooth. Qed.
+  Lemma poly_eq : forall a b k : T, sdf_poly a b k = poly a b k. Proof. same_as TRANSL_poly. Qed.
+  Lemma sqrtHalf_eq : sdf_sqrtHalf = @sqrt_half O. Proof. same_as TRANSL_sqrtHalf. Qed.
+  Lemma Pi_eq : sdf_Pi = opi O. Proof. same_as TRANSL_Pi. Qed.
+  Lemma RoundMin_eq : forall k a b : T, sdf_RoundMin k a b = min_apply (MinRound k) a b. Proof. same_as TRANSL_RoundMin. Qed.
+  Lemma ChamferMin_eq : forall k a b : T, sdf_ChamferMin k a b = min_apply (MinChamfer k) a b. Proof. same_as TRANSL_ChamferMin. Qed.
+  Lemma PolyMin_eq : forall k a b : T, sdf_PolyMin k a b = min_apply (MinPoly k) a b. Proof. same_as TRANSL_PolyMin. Qed.
+  Lemma PolyMax_eq : forall k a b : T, sdf_PolyMax k a b = max_apply (MaxPoly k) a b. Proof. same_as TRANSL_PolyMax. Qed.
+  Lemma NormalExtrude_eq : forall p : V3, sdf_NormalExtrude p = ex_normal p. Proof. same_as TRANSL_NormalExtrude. Qed.
   Lemma TwistExtrude_eq : forall (height twist : T) (p : V3), sdf_TwistExtrude height twist p = ex_twist height twist p.
-  Proof. reflexivity. Qed.
+  Proof. same_as TRANSL_TwistExtrude. Qed.
 
   Lemma ScaleExtrude_eq : forall (height : T) (scale : V2) (p : V3),
     sdf_ScaleExtrude height scale p = ex_scale height scale p.
-  Proof. reflexivity. Qed.
+  Proof. same_as TRANSL_ScaleExtrude. Qed.
   Lemma ScaleTwistExtrude_eq : forall (height twist : T) (scale : V2) (p : V3),
     sdf_ScaleTwistExtrude height twist scale p = ex_scaletwist height twist scale p.
-  Proof. reflexivity. Qed.
+  Proof. same_as TRANSL_ScaleTwistExtrude. Qed.
 
   (* ------------------------------------------------------------ sdf/sdf2.go *)
-  Lemma sdfBox2d_eq : forall p s : V2, sdf_sdfBox2d p s = sdf_box2d p s. Proof. reflexivity. Qed.
+  Lemma sdfBox2d_eq : forall p s : V2, sdf_sdfBox2d p s = sdf_box2d p s. Proof. same_as TRANSL_sdfBox2d. Qed.
 
   Lemma Circle_eq : forall (radius : T) o p, k_circle radius = Some o ->
     sdf_CircleSDF2_Evaluate radius p = ev2 o p.
-  Proof. intros radius o p H. unfold k_circle in H. open_k H. reflexivity. Qed.
+  Proof. intros radius o p H. unfold k_circle in H. open_k H. same_as TRANSL_Circle. Qed.
 
   Lemma Box2_eq : forall (size : V2) round o p, k_box2 size round = Some o ->
     sdf_BoxSDF2_Evaluate (v2subs (v2muls size k05) round) round p = ev2 o p.
-  Proof. intros size round o p H. unfold k_box2 in H. open_k H. reflexivity. Qed.
+  Proof. intros size round o p H. unfold k_box2 in H. open_k H. same_as TRANSL_Box2. Qed.
 
   Lemma Line2_eq : forall (l : T) round o p, k_line2 l round = Some o ->
     sdf_LineSDF2_Evaluate (l / two) round p = ev2 o p.
-  Proof. intros l round o p H. unfold k_line2 in H. open_k H. reflexivity. Qed.
+  Proof. intros l round o p H. unfold k_line2 in H. open_k H. same_as TRANSL_Line2. Qed.
 
   Lemma Offset2_eq : forall (s : Obj2 O) offset o p, k_offset2 s offset = Some o ->
     sdf_OffsetSDF2_Evaluate (ev2 s) offset p = ev2 o p.
-  Proof. intros s offset o p H. unfold k_offset2 in H. open_k H. reflexivity. Qed.
+  Proof. intros s offset o p H. unfold k_offset2 in H. open_k H. same_as TRANSL_Offset2. Qed.
 
   Lemma Intersect2_eq : forall m (s0 s1 : Obj2 O) o p, k_intersect2 m s0 s1 = Some o ->
     sdf_IntersectionSDF2_Evaluate (ev2 s0) (ev2 s1) (max_apply m) p = ev2 o p.
-  Proof. intros m s0 s1 o p H. unfold k_intersect2 in H. open_k H. reflexivity. Qed.
+  Proof. intros m s0 s1 o p H. unfold k_intersect2 in H. open_k H. same_as TRANSL_Intersect2. Qed.
 
   Lemma Difference2_eq : forall m (s0 s1 : Obj2 O) o p, k_difference2 m s0 s1 = Some o ->
     sdf_DifferenceSDF2_Evaluate (ev2 s0) (ev2 s1) (max_apply m) p = ev2 o p.
-  Proof. intros m s0 s1 o p H. unfold k_difference2 in H. open_k H. reflexivity. Qed.
+  Proof. intros m s0 s1 o p H. unfold k_difference2 in H. open_k H. same_as TRANSL_Difference2. Qed.
 
   Lemma Cut2_eq : forall (s : Obj2 O) a v o p, k_cut2 s a v = Some o ->
     sdf_CutSDF2_Evaluate (ev2 s) a (let v := v2normalize v in mkV2 (- vy v) (vx v)) p = ev2 o p.
-  Proof. intros s a v o p H. unfold k_cut2 in H. open_k H. reflexivity. Qed.
+  Proof. intros s a v o p H. unfold k_cut2 in H. open_k H. same_as TRANSL_Cut2. Qed.
 
   Lemma Transform2_eq : forall (s : Obj2 O) m o p, k_transform2 s m = Some o ->
     sdf_TransformSDF2_Evaluate (ev2 s) (m33_inverse m) p = ev2 o p.
-  Proof. intros s m o p H. unfold k_transform2 in H. open_k H. reflexivity. Qed.
+  Proof. intros s m o p H. unfold k_transform2 in H. open_k H. same_as TRANSL_Transform2. Qed.
 
   Lemma ScaleUniform2_eq : forall (s : Obj2 O) k o p, k_scaleuniform2 s k = Some o ->
     sdf_ScaleUniformSDF2_Evaluate (ev2 s) k (o1 O / k) p = ev2 o p.
-  Proof. intros s k o p H. unfold k_scaleuniform2 in H. open_k H. reflexivity. Qed.
+  Proof. intros s k o p H. unfold k_scaleuniform2 in H. open_k H. same_as TRANSL_ScaleUniform2. Qed.
 
   Lemma Elongate2_eq : forall (s : Obj2 O) h o p, k_elongate2 s h = Some o ->
     sdf_ElongateSDF2_Evaluate (ev2 s) (v2muls (v2abs h) k05) (v2muls (v2abs h) (- k05)) p = ev2 o p.
-  Proof. intros s h o p H. unfold k_elongate2 in H. open_k H. reflexivity. Qed.
+  Proof. intros s h o p H. unfold k_elongate2 in H. open_k H. same_as TRANSL_Elongate2. Qed.
 
   (* RotateCopy2D: theta = tau / n *)
-  Lemma P2ToV2_eq : forall r th : T, conv_P2ToV2 (r, th) = mkV2 (r * ocos O th) (r * osin O th). Proof. reflexivity. Qed.
+  Lemma P2ToV2_eq : forall r th : T, conv_P2ToV2 (r, th) = mkV2 (r * ocos O th) (r * osin O th). Proof. same_as TRANSL_P2ToV2. Qed.
   Lemma RotateCopy2_eq : forall (s : Obj2 O) n o p, k_rotatecopy2 s n = Some o ->
     sdf_RotateCopySDF2_Evaluate (ev2 s) (tau / ofZ O n) p = ev2 o p.
-  Proof. intros s n o p H. unfold k_rotatecopy2 in H. open_k H. reflexivity. Qed.
+  Proof. intros s n o p H. unfold k_rotatecopy2 in H. open_k H. same_as TRANSL_RotateCopy2. Qed.
 
   (* Slice2D: the in-plane axes it pre-computes *)
   Definition slice_u0 (n : V3) : V3 :=
@@ -210,22 +219,22 @@ Section GenEq.
     else mkV3 (wy n) (- wx n) (o0 O).
   Lemma Slice2_eq : forall (s : Obj3 O) a n o p, k_slice2 s a n = Some o ->
     sdf_SliceSDF2_Evaluate (ev3 s) a (v3normalize (slice_u0 n)) (v3normalize (v3cross n (slice_u0 n))) p = ev2 o p.
-  Proof. intros s a n o p H. unfold k_slice2 in H. open_k H. reflexivity. Qed.
+  Proof. intros s a n o p H. unfold k_slice2 in H. open_k H. same_as TRANSL_Slice2. Qed.
 
   (* ------------------------------------------------------------ sdf/sdf3.go *)
-  Lemma sdfBox3d_eq : forall p s : V3, sdf_sdfBox3d p s = sdf_box3d p s. Proof. reflexivity. Qed.
+  Lemma sdfBox3d_eq : forall p s : V3, sdf_sdfBox3d p s = sdf_box3d p s. Proof. same_as TRANSL_sdfBox3d. Qed.
 
   Lemma Sphere_eq : forall (radius : T) o p, k_sphere radius = Some o ->
     sdf_SphereSDF3_Evaluate radius p = ev3 o p.
-  Proof. intros radius o p H. unfold k_sphere in H. open_k H. reflexivity. Qed.
+  Proof. intros radius o p H. unfold k_sphere in H. open_k H. same_as TRANSL_Sphere. Qed.
 
   Lemma Box3_eq : forall (size : V3) round o p, k_box3 size round = Some o ->
     sdf_BoxSDF3_Evaluate (v3subs (v3muls size k05) round) round p = ev3 o p.
-  Proof. intros size round o p H. unfold k_box3 in H. open_k H. reflexivity. Qed.
+  Proof. intros size round o p H. unfold k_box3 in H. open_k H. same_as TRANSL_Box3. Qed.
 
   Lemma Cylinder_eq : forall (height : T) radius round o p, k_cylinder height radius round = Some o ->
     sdf_CylinderSDF3_Evaluate ((height / two) - round) (radius - round) round p = ev3 o p.
-  Proof. intros height radius round o p H. unfold k_cylinder in H. open_k H. reflexivity. Qed.
+  Proof. intros height radius round o p H. unfold k_cylinder in H. open_k H. same_as TRANSL_Cylinder. Qed.
 
   (* the fields Cone3D pre-computes, as k_cone does *)
   Definition cone_sh (height round : T) : T := (height / two) - round.
@@ -242,7 +251,7 @@ Section GenEq.
   Lemma Cone_eq : forall (height : T) r0 r1 round o p, k_cone height r0 r1 round = Some o ->
     sdf_ConeSDF3_Evaluate (cone_sr0 height r0 r1 round) (cone_sr1 height r0 r1 round) (cone_sh height round) round
                           (cone_u height r0 r1) (cone_n height r0 r1) (cone_l height r0 r1 round) p = ev3 o p.
-  Proof. intros height r0 r1 round o p H. unfold k_cone in H. open_k H. reflexivity. Qed.
+  Proof. intros height r0 r1 round o p H. unfold k_cone in H. open_k H. same_as TRANSL_Cone. Qed.
 
   (* RevolveTheta3D: theta is reduced mod tau, norm = (-sin theta, cos theta) *)
   Lemma Sor_eq : forall (s : Obj2 O) theta0 o p, k_revolve s theta0 = Some o ->
@@ -251,28 +260,28 @@ Section GenEq.
   Proof.
     intros s theta0 o p H theta. unfold k_revolve in H. open_k H.
     unfold sdf_SorSDF3_Evaluate. cbn [ev3]. fold theta.
-    destruct (theta =? o0 O); reflexivity.
+    destruct (theta =? o0 O); same_as TRANSL_Sor.
   Qed.
 
   Lemma Extrude_eval_eq : forall (s : Obj2 O) sh ex p, sdf_ExtrudeSDF3_Evaluate (ev2 s) sh ex p = extrude_ev s sh ex p.
-  Proof. reflexivity. Qed.
+  Proof. same_as TRANSL_Extrude_eval. Qed.
   Lemma Extrude_eq : forall (s : Obj2 O) height o p, k_extrude s height = Some o ->
     sdf_ExtrudeSDF3_Evaluate (ev2 s) (height / two) sdf_NormalExtrude p = ev3 o p.
-  Proof. intros s height o p H. unfold k_extrude in H. open_k H. reflexivity. Qed.
+  Proof. intros s height o p H. unfold k_extrude in H. open_k H. same_as TRANSL_Extrude. Qed.
   Lemma TwistExtrude3D_eq : forall (s : Obj2 O) height twist o p, k_twistextrude s height twist = Some o ->
     sdf_ExtrudeSDF3_Evaluate (ev2 s) (height / two) (sdf_TwistExtrude height twist) p = ev3 o p.
-  Proof. intros s height twist o p H. unfold k_twistextrude in H. open_k H. reflexivity. Qed.
+  Proof. intros s height twist o p H. unfold k_twistextrude in H. open_k H. same_as TRANSL_TwistExtrude3D. Qed.
 
   (* the shared tail of ExtrudeRounded / Loft *)
   Lemma ExtrudeRounded_tail_eq : forall (f : V2 -> T) (sh round : T) (p : V3),
     sdf_ExtrudeRoundedSDF3_Evaluate f sh round p = rounded_combine (f (mkV2 (wx p) (wy p))) (oabs O (wz p) - sh) round.
-  Proof. reflexivity. Qed.
+  Proof. same_as TRANSL_ExtrudeRounded_tail. Qed.
 
   Lemma ExtrudeRounded_eq : forall (s : Obj2 O) height round o p, (round =? o0 O) = false ->
     k_extruderounded s height round = Some o ->
     sdf_ExtrudeRoundedSDF3_Evaluate (ev2 s) ((height / two) - round) round p = ev3 o p.
   Proof.
-    intros s height round o p Hr H. unfold k_extruderounded in H. rewrite Hr in H. open_k H. reflexivity.
+    intros s height round o p Hr H. unfold k_extruderounded in H. rewrite Hr in H. open_k H. same_as TRANSL_ExtrudeRounded.
   Qed.
 
   (* Go: k := 0.5; if s.height != 0 { k = Clamp(..) } - model: if sh =? 0 then k05 else clamp .. *)
@@ -281,125 +290,125 @@ Section GenEq.
   Proof.
     intros s0 s1 height round o p H. unfold k_loft in H. open_k H.
     unfold sdf_LoftSDF3_Evaluate. cbn [ev3].
-    destruct ((height / two) - round =? o0 O); reflexivity.
+    destruct ((height / two) - round =? o0 O); same_as TRANSL_Loft.
   Qed.
 
   Lemma Transform3_eq : forall (s : Obj3 O) m o p, k_transform3 s m = Some o ->
     sdf_TransformSDF3_Evaluate (ev3 s) (m44_inverse m) p = ev3 o p.
-  Proof. intros s m o p H. unfold k_transform3 in H. open_k H. reflexivity. Qed.
+  Proof. intros s m o p H. unfold k_transform3 in H. open_k H. same_as TRANSL_Transform3. Qed.
 
   Lemma ScaleUniform3_eq : forall (s : Obj3 O) k o p, k_scaleuniform3 s k = Some o ->
     sdf_ScaleUniformSDF3_Evaluate (ev3 s) k (o1 O / k) p = ev3 o p.
-  Proof. intros s k o p H. unfold k_scaleuniform3 in H. open_k H. reflexivity. Qed.
+  Proof. intros s k o p H. unfold k_scaleuniform3 in H. open_k H. same_as TRANSL_ScaleUniform3. Qed.
 
   Lemma Difference3_eq : forall m (s0 s1 : Obj3 O) o p, k_difference3 m s0 s1 = Some o ->
     sdf_DifferenceSDF3_Evaluate (ev3 s0) (ev3 s1) (max_apply m) p = ev3 o p.
-  Proof. intros m s0 s1 o p H. unfold k_difference3 in H. open_k H. reflexivity. Qed.
+  Proof. intros m s0 s1 o p H. unfold k_difference3 in H. open_k H. same_as TRANSL_Difference3. Qed.
 
   Lemma Intersect3_eq : forall m (s0 s1 : Obj3 O) o p, k_intersect3 m s0 s1 = Some o ->
     sdf_IntersectionSDF3_Evaluate (ev3 s0) (ev3 s1) (max_apply m) p = ev3 o p.
-  Proof. intros m s0 s1 o p H. unfold k_intersect3 in H. open_k H. reflexivity. Qed.
+  Proof. intros m s0 s1 o p H. unfold k_intersect3 in H. open_k H. same_as TRANSL_Intersect3. Qed.
 
   Lemma Elongate3_eq : forall (s : Obj3 O) h o p, k_elongate3 s h = Some o ->
     sdf_ElongateSDF3_Evaluate (ev3 s) (v3muls (v3abs h) k05) (v3muls (v3abs h) (- k05)) p = ev3 o p.
-  Proof. intros s h o p H. unfold k_elongate3 in H. open_k H. reflexivity. Qed.
+  Proof. intros s h o p H. unfold k_elongate3 in H. open_k H. same_as TRANSL_Elongate3. Qed.
 
   Lemma Cut3_eq : forall (s : Obj3 O) a n o p, k_cut3 s a n = Some o ->
     sdf_CutSDF3_Evaluate (ev3 s) a (v3neg (v3normalize n)) p = ev3 o p.
-  Proof. intros s a n o p H. unfold k_cut3 in H. open_k H. reflexivity. Qed.
+  Proof. intros s a n o p H. unfold k_cut3 in H. open_k H. same_as TRANSL_Cut3. Qed.
 
   Lemma Offset3_eq : forall (s : Obj3 O) offset o p, k_offset3 s offset = Some o ->
     sdf_OffsetSDF3_Evaluate (ev3 s) offset p = ev3 o p.
-  Proof. intros s offset o p H. unfold k_offset3 in H. open_k H. reflexivity. Qed.
+  Proof. intros s offset o p H. unfold k_offset3 in H. open_k H. same_as TRANSL_Offset3. Qed.
 
   Lemma Shell3_eq : forall (s : Obj3 O) thickness o p, k_shell3 s thickness = Some o ->
     sdf_ShellSDF3_Evaluate (ev3 s) (k05 * thickness) p = ev3 o p.
-  Proof. intros s thickness o p H. unfold k_shell3 in H. open_k H. reflexivity. Qed.
+  Proof. intros s thickness o p H. unfold k_shell3 in H. open_k H. same_as TRANSL_Shell3. Qed.
   Lemma RotateCopy3_eq : forall (s : Obj3 O) n o p, k_rotatecopy3 s n = Some o ->
     sdf_RotateCopySDF3_Evaluate (ev3 s) (tau / ofZ O n) p = ev3 o p.
-  Proof. intros s n o p H. unfold k_rotatecopy3 in H. open_k H. reflexivity. Qed.
+  Proof. intros s n o p H. unfold k_rotatecopy3 in H. open_k H. same_as TRANSL_RotateCopy3. Qed.
 
   (* ------------------------------------------------------------ constructors, object for object *)
   Definition obj2_of (x : (V2 -> T) * Box2 O) : Obj2 O := mkObj2 (fst x) (snd x).
   Definition obj3_of (x : (V3 -> T) * Box3 O) : Obj3 O := mkObj3 (fst x) (snd x).
 
   Lemma Circle2D_ctor : forall radius : T, option_map obj2_of (sdf_Circle2D radius) = k_circle radius.
-  Proof. intros. unfold sdf_Circle2D, k_circle. ctor_eq. Qed.
+  Proof. intros. unfold sdf_Circle2D, k_circle. ctor_eq TRANSL_Circle2D_ctor. Qed.
   Lemma Box2D_ctor : forall (size : V2) (round : T), option_map obj2_of (sdf_Box2D size round) = k_box2 size round.
-  Proof. intros. unfold sdf_Box2D, k_box2. ctor_eq. Qed.
+  Proof. intros. unfold sdf_Box2D, k_box2. ctor_eq TRANSL_Box2D_ctor. Qed.
   Lemma Line2D_ctor : forall l round : T, option_map obj2_of (sdf_Line2D l round) = k_line2 l round.
-  Proof. intros. unfold sdf_Line2D, k_line2. ctor_eq. Qed.
+  Proof. intros. unfold sdf_Line2D, k_line2. ctor_eq TRANSL_Line2D_ctor. Qed.
   Lemma Offset2D_ctor : forall (s : Obj2 O) (offset : T),
     option_map obj2_of (sdf_Offset2D (ev2 s) (bb2 s) offset) = k_offset2 s offset.
-  Proof. intros. unfold sdf_Offset2D, k_offset2. ctor_eq. Qed.
+  Proof. intros. unfold sdf_Offset2D, k_offset2. ctor_eq TRANSL_Offset2D_ctor. Qed.
   (* Intersect2D / Difference2D install math.Max; SetMax replaces it (the model's MaxK argument) *)
   Lemma Intersect2D_ctor : forall s0 s1 : Obj2 O,
     option_map obj2_of (sdf_Intersect2D (ev2 s0) (bb2 s0) (ev2 s1) (bb2 s1)) = k_intersect2 MaxDef s0 s1.
-  Proof. intros. unfold sdf_Intersect2D, k_intersect2. ctor_eq. Qed.
+  Proof. intros. unfold sdf_Intersect2D, k_intersect2. ctor_eq TRANSL_Intersect2D_ctor. Qed.
   Lemma Difference2D_ctor : forall s0 s1 : Obj2 O,
     option_map obj2_of (sdf_Difference2D (ev2 s0) (bb2 s0) (ev2 s1) (bb2 s1)) = k_difference2 MaxDef s0 s1.
-  Proof. intros. unfold sdf_Difference2D, k_difference2. ctor_eq. Qed.
+  Proof. intros. unfold sdf_Difference2D, k_difference2. ctor_eq TRANSL_Difference2D_ctor. Qed.
   Lemma Cut2D_ctor : forall (s : Obj2 O) (a v : V2),
     option_map obj2_of (sdf_Cut2D (ev2 s) (bb2 s) a v) = k_cut2 s a v.
-  Proof. intros. unfold sdf_Cut2D, k_cut2. ctor_eq. Qed.
+  Proof. intros. unfold sdf_Cut2D, k_cut2. ctor_eq TRANSL_Cut2D_ctor. Qed.
   Lemma Transform2D_ctor : forall (s : Obj2 O) (m : list T),
     option_map obj2_of (sdf_Transform2D (ev2 s) (bb2 s) m) = k_transform2 s m.
-  Proof. intros. unfold sdf_Transform2D, k_transform2. ctor_eq. Qed.
+  Proof. intros. unfold sdf_Transform2D, k_transform2. ctor_eq TRANSL_Transform2D_ctor. Qed.
   Lemma ScaleUniform2D_ctor : forall (s : Obj2 O) (k : T),
     option_map obj2_of (sdf_ScaleUniform2D (ev2 s) (bb2 s) k) = k_scaleuniform2 s k.
-  Proof. intros. unfold sdf_ScaleUniform2D, k_scaleuniform2. ctor_eq. Qed.
+  Proof. intros. unfold sdf_ScaleUniform2D, k_scaleuniform2. ctor_eq TRANSL_ScaleUniform2D_ctor. Qed.
   Lemma Elongate2D_ctor : forall (s : Obj2 O) (h : V2),
     option_map obj2_of (sdf_Elongate2D (ev2 s) (bb2 s) h) = k_elongate2 s h.
-  Proof. intros. unfold sdf_Elongate2D, k_elongate2. ctor_eq. Qed.
+  Proof. intros. unfold sdf_Elongate2D, k_elongate2. ctor_eq TRANSL_Elongate2D_ctor. Qed.
 
   Lemma Sphere3D_ctor : forall radius : T, option_map obj3_of (sdf_Sphere3D radius) = k_sphere radius.
-  Proof. intros. unfold sdf_Sphere3D, k_sphere. ctor_eq. Qed.
+  Proof. intros. unfold sdf_Sphere3D, k_sphere. ctor_eq TRANSL_Sphere3D_ctor. Qed.
   Lemma Box3D_ctor : forall (size : V3) (round : T), option_map obj3_of (sdf_Box3D size round) = k_box3 size round.
-  Proof. intros. unfold sdf_Box3D, k_box3. rewrite v3_LTEZero_eq. ctor_eq. Qed.
+  Proof. intros. unfold sdf_Box3D, k_box3. rewrite v3_LTEZero_eq. ctor_eq TRANSL_Box3D_ctor. Qed.
   Lemma Cylinder3D_ctor : forall height radius round : T,
     option_map obj3_of (sdf_Cylinder3D height radius round) = k_cylinder height radius round.
-  Proof. intros. unfold sdf_Cylinder3D, k_cylinder. ctor_eq. Qed.
+  Proof. intros. unfold sdf_Cylinder3D, k_cylinder. ctor_eq TRANSL_Cylinder3D_ctor. Qed.
   Lemma Capsule3D_ctor : forall height radius : T,
     option_map obj3_of (sdf_Capsule3D height radius) = k_cylinder height radius radius.
   Proof. intros. unfold sdf_Capsule3D. apply Cylinder3D_ctor. Qed.
   Lemma Cone3D_ctor : forall height r0 r1 round : T,
     option_map obj3_of (sdf_Cone3D height r0 r1 round) = k_cone height r0 r1 round.
-  Proof. intros. unfold sdf_Cone3D, k_cone. ctor_eq. Qed.
+  Proof. intros. unfold sdf_Cone3D, k_cone. ctor_eq TRANSL_Cone3D_ctor. Qed.
   Lemma Extrude3D_ctor : forall (s : Obj2 O) (height : T),
     option_map obj3_of (sdf_Extrude3D (ev2 s) (bb2 s) height) = k_extrude s height.
-  Proof. intros. unfold sdf_Extrude3D, k_extrude. ctor_eq. Qed.
+  Proof. intros. unfold sdf_Extrude3D, k_extrude. ctor_eq TRANSL_Extrude3D_ctor. Qed.
   Lemma ExtrudeRounded3D_ctor : forall (s : Obj2 O) (height round : T),
     option_map obj3_of (sdf_ExtrudeRounded3D (ev2 s) (bb2 s) height round) = k_extruderounded s height round.
-  Proof. intros. unfold sdf_ExtrudeRounded3D, k_extruderounded. ctor_eq. Qed.
+  Proof. intros. unfold sdf_ExtrudeRounded3D, k_extruderounded. ctor_eq TRANSL_ExtrudeRounded3D_ctor. Qed.
   Lemma Transform3D_ctor : forall (s : Obj3 O) (m : list T),
     option_map obj3_of (sdf_Transform3D (ev3 s) (bb3 s) m) = k_transform3 s m.
-  Proof. intros. unfold sdf_Transform3D, k_transform3. ctor_eq. Qed.
+  Proof. intros. unfold sdf_Transform3D, k_transform3. ctor_eq TRANSL_Transform3D_ctor. Qed.
   Lemma ScaleUniform3D_ctor : forall (s : Obj3 O) (k : T),
     option_map obj3_of (sdf_ScaleUniform3D (ev3 s) (bb3 s) k) = k_scaleuniform3 s k.
-  Proof. intros. unfold sdf_ScaleUniform3D, k_scaleuniform3. ctor_eq. Qed.
+  Proof. intros. unfold sdf_ScaleUniform3D, k_scaleuniform3. ctor_eq TRANSL_ScaleUniform3D_ctor. Qed.
   Lemma Difference3D_ctor : forall s0 s1 : Obj3 O,
     option_map obj3_of (sdf_Difference3D (ev3 s0) (bb3 s0) (ev3 s1) (bb3 s1)) = k_difference3 MaxDef s0 s1.
-  Proof. intros. unfold sdf_Difference3D, k_difference3. ctor_eq. Qed.
+  Proof. intros. unfold sdf_Difference3D, k_difference3. ctor_eq TRANSL_Difference3D_ctor. Qed.
   Lemma Intersect3D_ctor : forall s0 s1 : Obj3 O,
     option_map obj3_of (sdf_Intersect3D (ev3 s0) (bb3 s0) (ev3 s1) (bb3 s1)) = k_intersect3 MaxDef s0 s1.
-  Proof. intros. unfold sdf_Intersect3D, k_intersect3. ctor_eq. Qed.
+  Proof. intros. unfold sdf_Intersect3D, k_intersect3. ctor_eq TRANSL_Intersect3D_ctor. Qed.
   Lemma Cut3D_ctor : forall (s : Obj3 O) (a n : V3),
     option_map obj3_of (sdf_Cut3D (ev3 s) (bb3 s) a n) = k_cut3 s a n.
-  Proof. intros. unfold sdf_Cut3D, k_cut3. ctor_eq. Qed.
+  Proof. intros. unfold sdf_Cut3D, k_cut3. ctor_eq TRANSL_Cut3D_ctor. Qed.
   Lemma Elongate3D_ctor : forall (s : Obj3 O) (h : V3),
     option_map obj3_of (sdf_Elongate3D (ev3 s) (bb3 s) h) = k_elongate3 s h.
-  Proof. intros. unfold sdf_Elongate3D, k_elongate3. ctor_eq. Qed.
+  Proof. intros. unfold sdf_Elongate3D, k_elongate3. ctor_eq TRANSL_Elongate3D_ctor. Qed.
   Lemma Offset3D_ctor : forall (s : Obj3 O) (offset : T),
     option_map obj3_of (sdf_Offset3D (ev3 s) (bb3 s) offset) = k_offset3 s offset.
-  Proof. intros. unfold sdf_Offset3D, k_offset3. ctor_eq. Qed.
+  Proof. intros. unfold sdf_Offset3D, k_offset3. ctor_eq TRANSL_Offset3D_ctor. Qed.
   Lemma Shell3D_ctor : forall (s : Obj3 O) (thickness : T),
     option_map obj3_of (sdf_Shell3D (ev3 s) (bb3 s) thickness) = k_shell3 s thickness.
-  Proof. intros. unfold sdf_Shell3D, k_shell3. ctor_eq. Qed.
+  Proof. intros. unfold sdf_Shell3D, k_shell3. ctor_eq TRANSL_Shell3D_ctor. Qed.
 
   Lemma ScaleExtrude3D_ctor : forall (s : Obj2 O) (height : T) (scale : V2),
     option_map obj3_of (sdf_ScaleExtrude3D (ev2 s) (bb2 s) height scale) = k_scaleextrude s height scale.
-  Proof. intros. unfold sdf_ScaleExtrude3D, k_scaleextrude. ctor_eq. Qed.
+  Proof. intros. unfold sdf_ScaleExtrude3D, k_scaleextrude. ctor_eq TRANSL_ScaleExtrude3D_ctor. Qed.
   Lemma Loft3D_ctor : forall (s0 s1 : Obj2 O) (height round : T),
     option_map obj3_of (sdf_Loft3D (ev2 s0) (bb2 s0) (ev2 s1) (bb2 s1) height round) = k_loft s0 s1 height round.
-  Proof. intros. unfold sdf_Loft3D, k_loft, sdf_LoftSDF3_Evaluate. ctor_eq. Qed.
+  Proof. intros. unfold sdf_Loft3D, k_loft, sdf_LoftSDF3_Evaluate. ctor_eq TRANSL_Loft3D_ctor. Qed.
 End GenEq.
